@@ -547,6 +547,17 @@ func TestPropHistories(t *testing.T) {
 		m := &model{}
 		var hist []op
 		tomb, tombThenMut := false, false
+		if rapid.IntRange(0, 5).Draw(t, "fromitems") == 0 {
+			// MapFromItems with repeated keys: documented as Set in order
+			var items []ordered.TupleSA
+			for i, c := 0, rapid.IntRange(1, 6).Draw(t, "nitems"); i < c; i++ {
+				k := rapid.SampledFrom(keys).Draw(t, "ik")
+				items = append(items, ordered.TupleSA{Key: k, Value: i})
+				m.set(k, i)
+				hist = append(hist, op{Kind: "set", K: k, V: i})
+			}
+			real = ordered.MapFromItems(items...)
+		}
 		// big mode: pre-populate so long delete runs cross the compaction threshold often
 		if bigMode {
 			n := rapid.IntRange(0, 200).Draw(t, "prefill")
